@@ -1,8 +1,12 @@
 """C34 repair packs and repair snapshots salvage all intact data."""
+from concurrent.futures import ThreadPoolExecutor
 from props import repo_common
 
 
 def run(ctx):
-    design = repo_common.repair_design_runs(ctx)
-    out = ctx.go_test("cmd/restic", "^TestVerif_C34$", timeout=3300)
+    with ThreadPoolExecutor(1) as ex:
+        fut = ex.submit(repo_common.repair_design_runs, ctx)
+        # zz_verif_c03_shared_test.go provides vCraftSharedChunks (files that share blobs); the c03 driver needs the c09 files
+        out = ctx.go_test("cmd/restic", "^TestVerif_C34$", timeout=3300, tags=["c34", "common", "c03", "c09"])
+        design = fut.result()
     return repo_common.finish_trace(ctx, out, "model_checking", extra_cov={"design_model_runs": design})
